@@ -566,7 +566,33 @@ func (ex *Exec) sliceOp(s *State, fr *Frame, x *ssa.Slice) Value {
 	}
 	if lp, ok := base.(PtrV); ok && (lp.Kind == PCell || lp.Kind == PSub) {
 		// slice of a local array (append's varargs): a sequence holding the array's elements
-		if av, isArr := ex.loadPtr(s, lp).(ArrV); isArr && !hasLo && !hasHi && !hasMax {
+		// (also make([]T, n, c) with constant n <= c, which go/ssa lowers to new [c]T sliced [:n];
+		// sequences are mathematical values here - appends never alias - so the spare capacity is
+		// not modelled)
+		loC, hiC := int64(0), int64(-1)
+		constBounds := !hasMax
+		if hasLo {
+			if c, ok := lo.IntConst(); ok {
+				loC = c.Int64()
+			} else {
+				constBounds = false
+			}
+		}
+		if hasHi {
+			if c, ok := hi.IntConst(); ok {
+				hiC = c.Int64()
+			} else {
+				constBounds = false
+			}
+		}
+		if av, isArr := ex.loadPtr(s, lp).(ArrV); isArr && constBounds {
+			if hiC < 0 || hiC > int64(len(av.Elems)) {
+				hiC = int64(len(av.Elems))
+			}
+			if loC > hiC {
+				loC = hiC
+			}
+			av.Elems = av.Elems[loC:hiC]
 			if isNodeRef(av.Elem) {
 				sq := ex.zero(types.NewSlice(av.Elem)).(SliceV)
 				for i, e := range av.Elems {
